@@ -162,7 +162,7 @@ func nondetSites(repo string) ([]string, error) {
 				name = im.Name.Name
 			}
 			switch ip {
-			case "time", "math/rand", "crypto/rand", "os", "math/rand/v2":
+			case "time", "math/rand", "crypto/rand", "os", "math/rand/v2", "io/ioutil":
 				pk[name] = ip
 			}
 		}
@@ -190,7 +190,10 @@ func nondetSites(repo string) ([]string, error) {
 				case "time":
 					bad = se.Sel.Name == "Now" || se.Sel.Name == "Since" || se.Sel.Name == "Until"
 				case "os":
-					bad = se.Sel.Name == "Getenv" || se.Sel.Name == "Hostname" || se.Sel.Name == "Getpid" || se.Sel.Name == "LookupEnv" || se.Sel.Name == "Environ"
+					bad = se.Sel.Name == "Getenv" || se.Sel.Name == "Hostname" || se.Sel.Name == "Getpid" || se.Sel.Name == "LookupEnv" || se.Sel.Name == "Environ" ||
+						se.Sel.Name == "TempDir" || se.Sel.Name == "MkdirTemp" || se.Sel.Name == "CreateTemp" || se.Sel.Name == "UserHomeDir" || se.Sel.Name == "UserCacheDir"
+				case "io/ioutil":
+					bad = se.Sel.Name == "TempDir" || se.Sel.Name == "TempFile"
 				default:
 					bad = true
 				}
